@@ -161,8 +161,19 @@ func init() {
 			"(two heights later, as CometBFT does) and the monitor checks: the update was accepted, accumulated set = module record = exported validators, <= K members all active with their exact positive power, no eligible non-member stronger than a member or left out of a non-full set, FinalizeBlock never fails. " +
 			"Non-trivial = every committed block; distinct = (K, members, updates in the block, validators known).",
 		Assume: []string{"the harness applies updates with cometbft/types.ValidatorSet.UpdateWithChangeSet exactly as CometBFT's state machine does", "validator 0 (the proposing node) is never punished"},
-		Cases:  func(tier string) int { return map[string]int{"quick": 48, "thorough": 320}[tier] },
-		Run:    func(c *vc.Ctx, i int) { c13History(c, i) },
+		Cases:  func(tier string) int { return map[string]int{"quick": 48 + 8, "thorough": 320 + 60}[tier] },
+		Run: func(c *vc.Ctx, i int) {
+			if base := map[string]int{"quick": 48, "thorough": 320}[c.Tier]; i >= base {
+				combinedHistory(c, i-base, "c13x", c.Pick(60, 150), nil, func(h *lockHist) (func(), func()) {
+					h.crashFn = func(cr *world.ErrCrash) {
+						c.Violation("begin/end-of-block logic failed: "+errClass(cr.Err.Error()), cr.Error(), h.replay())
+					}
+					return func() { c13After(h) }, nil
+				})
+				return
+			}
+			c13History(c, i)
+		},
 	})
 }
 
